@@ -1,5 +1,30 @@
-//! C08 — not implemented yet.
+//! C08 — the unused fourth lane of Vec3A/Mat3A/Affine3A/BVec3A never influences a result.
+#![allow(deprecated, unused_braces)]
+use vcore::*;
+
+#[cfg(not(feature = "core"))]
+mod simd {
+    pub const VARIANT: &str = "simd";
+    use ::glam_simd as glam;
+    include!(concat!(env!("CARGO_MANIFEST_DIR"), "/../apisupport/api_support.rs"));
+    include!(concat!(env!("CARGO_MANIFEST_DIR"), "/../gen/api_table_sse2.rs"));
+    include!("suite.rs");
+}
+#[cfg(feature = "core")]
+mod core_simd {
+    pub const VARIANT: &str = "core";
+    use ::glam_core as glam;
+    include!(concat!(env!("CARGO_MANIFEST_DIR"), "/../apisupport/api_support.rs"));
+    include!(concat!(env!("CARGO_MANIFEST_DIR"), "/../gen/api_table_coresimd.rs"));
+    include!("suite.rs");
+}
+
 fn main() {
-    eprintln!("c08: not implemented");
-    std::process::exit(2);
+    let args = Args::parse();
+    let mut subs = vec![];
+    #[cfg(not(feature = "core"))]
+    subs.extend(simd::subs(&args));
+    #[cfg(feature = "core")]
+    subs.extend(core_simd::subs(&args));
+    std::process::exit(main_with("C08", "", &args, subs));
 }
